@@ -14,6 +14,7 @@ import Driver.CmdSrch
 import Driver.CmdOpt
 import Driver.CmdDef
 import Driver.CmdDet
+import Driver.CmdFull
 open Lean Driver
 
 def dispatch (cmd : String) (j : Json) : R Json :=
@@ -25,6 +26,7 @@ def dispatch (cmd : String) (j : Json) : R Json :=
   | "log.run" => cmdLogRun j
   | "pipe.run" => cmdPipeRun j
   | "det.replay" => cmdDetReplay j
+  | "full.replay" => cmdFullReplay j
   | "mesh.bounds" => cmdMeshBounds j
   | "poll.dirs" => cmdPollDirs j
   | "prop.dirs" => cmdPropDirs j
